@@ -6,11 +6,12 @@ CONSTANTS
   Target <- T
   Routes = {"md"}
   Ops = {"env", "mkdir", "verify"}
-  MaxItems = 3
+  MaxItems = 2
   MaxDepthFs = 3
   MaxEnv = 2
   MaxOps = 2
   EnvSuffixes <- Suffix1
+  EnvFirst = FALSE
   LongToks <- Long
   Dev = {}
 INVARIANTS C06_ExactlyTheTree C06_ExistsUnchanged C06_RefusalIsError C06_Succeeds C07_Confined C07_NothingRemoved C07_InvalidRejected C08_VerdictIff C08_Lists C08_ReadOnly C08_FreshMkdirVerifies C09_DryTouchesNothing C09_DryRejectsIffReal C09_DryIsReportOrInvalid C09_CountsPredictReal
